@@ -29,8 +29,8 @@ ASSUME = {
     "C18": [
         "what the terminal holds is VT.data / VT.viewportY as observed (C18 compares the console with the terminal's own viewport, not with the C17 reference)",
         "text mode: a cell shows the character / attribute pair stored in it; frame buffer: a cell shows <<ch, fg, bg>> iff its pixels equal the font glyph of ch rendered with palette entries fg/bg in the frame buffer's pixel format (exact comparison; pictures that two triples share - blank glyph, inverse glyph pairs of the cp437 fonts - are compared up to that equivalence, defined in VTConsole!Canon from the font's glyph classes logged at attach time)",
-        "frame buffers: depths 8/15/16/24/32 with the usual 5-5-5, 5-6-5 and 8-8-8 (RGB and BGR) layouts, pitch = row bytes + {0,1,3,4,7,17}, partial cells right of / below the grid, the three shipped fonts and a synthetic 9x5 font, logo heights 0/5/13; for 32 bpp the fourth byte of a pixel is not looked at",
-        "outside the grid = guard bytes directly before / after the mapped frame buffer and the logo rows; row padding and partial cells are not compared (VesaFbConsole.Scroll copies whole rows: C19)",
+        "frame buffers: depths 8/15/16/24/32 with the usual 5-5-5, 5-6-5 and 8-8-8 layouts (24 bpp RGB/BGR; 32 bpp XRGB, XBGR and RGBX / BGRX with a colour component in bits 24-31), pitch = row bytes + {0,1,3,4,7,17}, partial cells right of / below the grid, the three shipped fonts and a synthetic 9x5 font, logo heights 0/5/13; a 32 bpp pixel is read with all four bytes and masked by the union of the component masks (bits no component uses are not displayed)",
+        "outside the grid = guard bytes directly before / after the mapped frame buffer, the logo rows and the padding bytes after every pixel row; partial cells right of / below the grid are not compared (Scroll moves whole visible rows)",
         "the consoles are built through exported API only (New*, DriverInit, SetLogo, SetFont); the overlay shim harness/tty/c18_console_shim.go binds the two hardware seams (mapRegionFn, portWriteByteFn) to host memory, as the repository's own console tests do",
         "SetState(inactive) itself is not constrained (the statement speaks about writes while active / inactive and about activation)",
         "terminals are attached while inactive and activated afterwards (the order hal.linkTTYToConsole uses); between checkpoints of big screens only the calls, the call count and the bytes outside the grid are judged",
